@@ -62,7 +62,7 @@ const Ceiling = 30 * time.Second
 // DeployTimeout is the `deploy_timeout` given to the core (its default is 90 s).
 // A workflow with a role pinned to a host that does not exist gets 5 s, so that
 // acquireTasks' three attempts (1 s apart) end before the deployment is given up.
-const DeployTimeout = "1500ms"
+const DeployTimeout = "2500ms"
 
 // HangAfter: a NewEnvironment / DestroyEnvironment call that has not returned
 // after this long (a normal one takes 0.05 … 5 s here) is examined: if the core
@@ -273,7 +273,7 @@ func (r *runner) debugDump() {
 		return
 	}
 	r.dumped = true
-	exec.Command("pkill", "-QUIT", "-P", fmt.Sprint(os.Getpid())).Run()
+	exec.Command("pkill", "-QUIT", "-f", "coreWorkingDir="+r.w.Dir()+"/").Run()
 	time.Sleep(500 * time.Millisecond)
 	os.MkdirAll(dir, 0o755)
 	for _, f := range []string{"core.1.stderr", "core.1.log"} {
@@ -398,6 +398,11 @@ func Run(input string) (string, error) {
 		}
 		ro := sx.L(sx.L(res...))
 		if !w.CoreAlive() {
+			if dir := os.Getenv("OWNH_DEBUG"); dir != "" {
+				os.MkdirAll(dir, 0o755)
+				b, _ := os.ReadFile(w.Dir() + "/core.1.stderr")
+				os.WriteFile(fmt.Sprintf("%s/crash-%d-%d.stderr", dir, os.Getpid(), time.Now().UnixNano()), b, 0o644)
+			}
 			ro.Add(sx.A("crashed"), sx.L())
 			obs.Add(ro)
 			break
@@ -448,6 +453,20 @@ func classifyNewErr(msg string) string {
 	// what is left is the CONFIGURE transition (the text is the task's own error for a single target,
 	// "CONFIGURE could not complete …" for several)
 	return "configure"
+}
+
+// scriptedFailure: the creation is scripted to fail after the environment was entered in the map
+// (deployment or configuration), i.e. its failure path with the forced teardown is expected to run.
+func scriptedFailure(e Env) bool {
+	if scriptedDeployFailure(e) {
+		return true
+	}
+	for _, ro := range e.Roles {
+		if ro.Kind != "P" && ro.Cfg != "ok" {
+			return true
+		}
+	}
+	return false
 }
 
 func scriptedDeployFailure(e Env) bool {
@@ -622,8 +641,9 @@ func (r *runner) diagnoseDestroyHang(op Op, id string) (*sx.Node, error) {
 }
 
 // diagnoseNewHang: NewEnvironment did not return. Known wedge: the failure
-// path's forced teardown waits for ever (an environment we have no id for is
-// listed inside transition DESTROY).
+// path's forced teardown waits for ever (the creation is scripted to fail and an
+// environment we have no id for is listed inside transition DESTROY). Anything
+// else — e.g. an overloaded machine — is inconclusive.
 func (r *runner) diagnoseNewHang(op Op) (*sx.Node, error) {
 	r.debugDump()
 	c, cancel := context.WithTimeout(context.Background(), 10*time.Second)
@@ -641,7 +661,7 @@ func (r *runner) diagnoseNewHang(op Op) (*sx.Node, error) {
 		}
 	}
 	switch {
-	case len(unknown) == 1 && unknown[0].GetCurrentTransition() == "DESTROY":
+	case len(unknown) == 1 && unknown[0].GetCurrentTransition() == "DESTROY" && scriptedFailure(r.sc.Envs[op.K]):
 		r.ids[unknown[0].GetId()] = op.K
 		r.idOf[op.K] = unknown[0].GetId()
 		r.hung = true
